@@ -84,6 +84,23 @@ static const char *c10_one(int m, int n, int_t *colptr, int_t *rowind, double *v
                 if (res) break; j += w; } }
         hx_free(q); hx_free(Tref); hx_free(Tfin); hx_free(nch);
     }
+    /* the public entry point p?gstrf_init (options structure handed over with arbitrary content) must produce exactly what
+       sp_colorder produced above in the non-symmetric mode it documents */
+    { const char *ip = P_str("init_prec", "");
+      if (!res && ip[0] && !symmode) {
+        const slu_vt *vt2 = vt_of(ip[0]); Gstat_t gs; superlumt_options_t o2; SuperMatrix AC2;
+        int_t *pc2 = hx_malloc(sizeof(int_t) * (n + 1)), *pr2 = hx_malloc(sizeof(int_t) * (n + 1)); memcpy(pc2, pc_in, sizeof(int_t) * n);
+        g_track = 1; StatAlloc(n, 1, g_ienv[1], g_ienv[2], &gs); StatInit(n, 1, &gs);
+        vt2->gstrf_init(1, DOFACT, NOTRANS, NO, g_ienv[1], g_ienv[2], 1.0, NO, 0.0, pc2, pr2, NULL, 0, &A, &AC2, &o2, &gs);
+        g_track = 0;
+        if (o2.SymmetricMode != NO) { snprintf(msg, sizeof msg, "C10:init_symmetric_mode_not_set|p%cgstrf_init left SymmetricMode=%d", ip[0], (int)o2.SymmetricMode); res = msg; }
+        for (int v = 0; v < n && !res; ++v) {
+            if (pc2[v] != pc[v]) { snprintf(msg, sizeof msg, "C10:init_differs_from_colorder|p%cgstrf_init: perm_c[%d]=%d, sp_colorder gave %d", ip[0], v, (int)pc2[v], (int)pc[v]); res = msg; }
+            else if (o2.etree[v] != o.etree[v] || o2.colcnt_h[v] != o.colcnt_h[v] || o2.part_super_h[v] != o.part_super_h[v]) {
+                snprintf(msg, sizeof msg, "C10:init_differs_from_colorder|p%cgstrf_init: etree/colcnt_h/part_super_h[%d] = %d/%d/%d, sp_colorder gave %d/%d/%d", ip[0], v, (int)o2.etree[v], (int)o2.colcnt_h[v], (int)o2.part_super_h[v], (int)o.etree[v], (int)o.colcnt_h[v], (int)o.part_super_h[v]); res = msg; } }
+        g_track = 1; vt2->finalize(&o2, &AC2); StatFree(&gs); g_track = 0;
+        hx_free(pc2); hx_free(pr2); stats[1] += 0;
+      } }
 done:
     g_track = 1; Destroy_CompCol_Permuted(&AC); g_track = 0;
     hx_free(o.etree); hx_free(o.colcnt_h); hx_free(o.part_super_h); hx_free(pc); hx_free(pc_in);
